@@ -69,6 +69,8 @@ def instances(tier, rng):
                 for cons in rng.sample(cl, min(2 if quick else len(cl), len(cl))):
                     feats.append({"cons": cons, "covlen": rng.choice([[1, 2], [3, 4], [7, 10], [17, 20], [1, 1]]),
                                   "elen": [rng.choice([vlib.NONE, 1, 1, 2, 3, 5, 8]) for _ in u["edges"]]})
+                    # node mode, edge-form constraint, fraction of its expanded items (node, link, node, ...)
+                    feats.append({"mode": "node", "cons": cons, "cov": rng.choice(COVS)})
                     if True:
                         # node mode: lengths on the nodes (absent = 1); link edges count 0 unless the edge has a length itself
                         feats.append({"mode": "node", "cons": cons, "covlen": rng.choice([[1, 2], [3, 4], [17, 20], [1, 1]]),
